@@ -372,6 +372,8 @@ fn pair(rng: &mut Rng, class: &str) -> (D, D) {
 
 const CLASSES: [&str; 9] = ["tie", "far", "cancel", "zero", "subnormal", "edge", "small", "digits", "digits34"];
 const BINARY: [&str; 6] = ["add", "sub", "mul", "div", "remainder", "modulo"];
+/// operations whose specification verdict is about the FeelNumber method, not the dec.rs wrapper
+const FN_SPEC_OPS: [&str; 3] = ["even", "odd", "isint"];
 const UNARY: [&str; 12] = ["neg", "abs", "reduce", "floor", "ceiling", "trunc", "fract", "sqrt", "even", "odd", "isint", "rescale"];
 
 fn ord_str(o: Option<Ordering>) -> &'static str {
@@ -655,7 +657,7 @@ pub fn run(cfg: &Cfg) -> Report {
           if i_raw != m_raw {
             rep.disagree(Kind::ImplVsModel, c.op, &format!("dec.rs {} differs from the model Dec.{}", c.op, c.op), &input, &i_raw, &m_raw);
             judge_queue.push((idx, i_raw.clone()));
-          } else if spec_ok == "false" {
+          } else if spec_ok == "false" && !FN_SPEC_OPS.contains(&c.op) {
             rep.disagree(Kind::ImplVsSpec, c.op, &spec_signature(c.op, &c.a), &input, &i_raw, "the specification of the operation");
           }
         }
@@ -667,6 +669,9 @@ pub fn run(cfg: &Cfg) -> Report {
       Ok(i_f) => {
         if i_f != "na" && i_f != m_f {
           rep.disagree(Kind::ImplVsModel, c.op, &format!("FeelNumber {} differs from the model FNum.{}", c.op, c.op), &input, &i_f, &m_f);
+        } else if spec_ok == "false" && FN_SPEC_OPS.contains(&c.op) {
+          // for these the specification speaks about the FeelNumber method (dec.rs only has the raw decQuad tests)
+          rep.disagree(Kind::ImplVsSpec, c.op, &spec_signature(c.op, &c.a), &input, &i_f, "the specification of the operation");
         }
       }
       Err(p) => rep.disagree(Kind::ImplVsSpec, c.op, &format!("FeelNumber {} panics", c.op), &input, &p, &m_f),
